@@ -3,8 +3,11 @@
 Part A (spec -> code): specs/SExpr.tla ReduplicateOK evaluated on every DAG
 GenForest.tla generates (sharing of leaves, lists and empty lists, also at top
 level); every final state is replayed into ddsmt.nodes.reduplicate.
-Part B (code -> spec): see lib/strategy_traces (gen_new events), added to this
-check when traces are available.
+Part B (code -> spec): real runs (all strategies) over inputs on which the
+sharing mutators apply (variable elimination, let substitution, constants);
+the launcher records the identities of the input handed to every Producer /
+TaskGenerator, and TLC (TraceHier / TraceDdmin) rejects a trace in which such
+an input is not a tree.
 """
 import json
 import os
@@ -75,6 +78,56 @@ def shape_class(recs):
     return '+'.join(sorted(kinds)) or 'none'
 
 
+TREE_CLAUSES = {'sweep-base-not-a-tree', 'round-base-not-a-tree',
+                'written-input-not-a-tree'}
+
+SHARING_INPUTS = [
+    '(set-logic QF_LIA)\n(declare-const x Int)\n(declare-const y Int)\n'
+    '(assert (= x (+ y 1)))\n(assert (> (* x x) (+ x 2)))\n'
+    '(assert (< x (- x y)))\n(check-sat)\n',
+    '(declare-const a Int)\n(declare-const b Int)\n'
+    '(assert (let ((z (+ a b))) (> (* z z) (+ z a))))\n'
+    '(assert (let ((w ())) (= w w)))\n(check-sat)\n',
+    '(declare-const p Bool)\n(declare-const q Bool)\n'
+    '(assert (= p (and q (not q))))\n(assert (or p (=> p q) (xor p p)))\n'
+    '(check-sat)\n',
+    '(declare-const x Int)\n(define-fun f ((a Int)) Int (+ a a a))\n'
+    '(assert (= x (f (f x))))\n(assert (> (f x) (f (f 1))))\n(check-sat)\n',
+]
+
+
+def part_b(rep, tier):
+    import random
+    import corpus
+    import stratcheck as S
+    r = random.Random(common.seed() + 13)
+    cfgs = []
+    n = 16 if tier == 'quick' else 160
+    for i in range(n):
+        text = SHARING_INPUTS[i % len(SHARING_INPUTS)]
+        spec = corpus.gen_pred(r, text, r.choice(['contains', 'count',
+                                                  'balanced']))
+        spec['delay_ms'] = 2
+        st = ('hierarchical', 'ddmin', 'hybrid')[i % 3]
+        opts = ['--strategy', st, '-j', str((1, 2, 4)[(i // 3) % 3])]
+        cfgs.append((text, spec, opts, {'strategy': st, 'n': i}))
+    items = S.validate(rep, S.execute(cfgs, label='c13'))
+    nshared = 0
+    for it in items:
+        rep.count()
+        if it.run.timed_out or it.run.status != 0:
+            continue
+        # runs in which sharing really arose before a reduplicate
+        if any(e['ev'] == 'redup' and e['before_distinct'] is False
+               for e in it.run.events):
+            nshared += 1
+            rep.nontrivial('run:' + common.digest(S.describe(it)))
+        S.trace_violations(rep, it, TREE_CLAUSES, prefix='run:')
+    rep.cov['runs'] = len(items)
+    rep.cov['runs_in_which_sharing_arose'] = nshared
+    S.cleanup(items)
+
+
 def main():
     a = common.std_args()
     ddsmt_env.load()
@@ -123,6 +176,7 @@ def main():
                 })
     rep.cov['traces_validated_against_impl'] = n
     rep.cov['exhaustive'] = True
+    part_b(rep, a.tier)
     return rep.finish()
 
 
